@@ -323,6 +323,18 @@ func c09Render(r *rand.Rand, p *c09Pool, frags []oracle.LigFragment) ([]clone.Pa
 			return nil, false
 		}
 		parts = append(parts, part)
+		if part.Circular && r.Intn(6) == 0 {
+			// the same text once more as a linear part: if read linearly it releases nothing (the stored origin lies
+			// inside an insert or between the sites in the wrong order), it must not change the result
+			if model, _ := oracle.Digest(part.Sequence, false, g); len(model) == 0 {
+				twin := clone.Part{Sequence: part.Sequence, Circular: false}
+				if r.Intn(2) == 0 {
+					parts = append(parts, twin)
+				} else {
+					parts = append(parts[:len(parts)-1], twin, part)
+				}
+			}
+		}
 		i += n
 	}
 	return parts, true
